@@ -6,6 +6,7 @@ package harness
 import (
 	"encoding/json"
 	"fmt"
+	iofs "io/fs"
 	"runtime/debug"
 	"sort"
 	"strings"
@@ -97,6 +98,7 @@ type SimKnobs struct {
 	Delay    int      `json:"write_delay"`
 	TZ       int      `json:"tz"` // 0 UTC, 1 +05:30, 2 -08:00
 	Watch    []string `json:"watch,omitempty"`
+	Stdio    int      `json:"stdio,omitempty"` // what stdout is connected to: 0 terminal, 1 pipe, 2 regular file
 }
 
 func genKnobs(rt *rapid.T) SimKnobs {
@@ -108,6 +110,7 @@ func genKnobs(rt *rapid.T) SimKnobs {
 	k.Chunks = rapid.SampledFrom([]int{1, 1, 2, 3}).Draw(rt, "chunks")
 	k.Delay = rapid.SampledFrom([]int{0, 0, 1, 3}).Draw(rt, "delay")
 	k.TZ = rapid.IntRange(0, 2).Draw(rt, "tz")
+	k.Stdio = rapid.SampledFrom([]int{0, 1, 1, 2}).Draw(rt, "stdio")
 	return k
 }
 
@@ -174,10 +177,13 @@ func RunCase(t *testing.T, p Property, scn any, knobs SimKnobs, tape []int, keep
 				}
 			}()
 			time.Local = zones[knobs.TZ%len(zones)]
-			log.VerifReset()
-			resetRecs()
 			fs := simos.Reset()
 			fs.SetWriteShape(knobs.Chunks, knobs.Delay)
+			fs.StdioMode = []iofs.FileMode{iofs.ModeCharDevice, iofs.ModeNamedPipe, 0}[knobs.Stdio%3]
+			// after the simulated OS is in place: package-level initialisers (log.Stdout) are
+			// evaluated again against it
+			log.VerifReset()
+			resetRecs()
 			cfg := verifsim.Config{
 				Tape: tape, PoolMode: knobs.PoolMode, MapSeed: knobs.MapSeed, Starve: knobs.Starve,
 				Offset: time.Duration(knobs.OffsetMs) * time.Millisecond, KeepTrace: keep, Watch: knobs.Watch,
